@@ -657,6 +657,14 @@ class Arr2(object):
             return RowView(self, key)
         if isinstance(key, GenIndex):
             return RowView(self, key)
+        if isinstance(key, Lane) and key.t.sort == 'B':
+            # boolean row mask: the selected rows, column by column (each column carries the selection)
+            return Arr2([c.getitem(key) for c in self.cols], self.n)
+        if isinstance(key, tuple) and len(key) == 2 and isinstance(key[0], slice) and key[0] == slice(None, None, None) \
+                and hasattr(key[1], 'data') and all(isinstance(b, (bool, Sym)) for b in key[1].data):
+            # boolean COLUMN mask: each entry decided by a case split
+            keep = [b if isinstance(b, bool) else bool(State.ctx.branch(b.t)) for b in key[1].data]
+            return Arr2([c.copy() for c, b in zip(self.cols, keep) if b], self.n)
         raise paths.Unsupported('Arr2 index %r' % (key,))
 
     def setitem(self, key, val):
@@ -673,7 +681,17 @@ class Arr2(object):
             return
         raise paths.Unsupported('Arr2 store %r' % (key,))
 
+    def _rowwise(self, op):
+        t = None
+        for c in self.cols:
+            if c.t.sort != 'B':
+                raise paths.Unsupported('row-wise any/all of a non-boolean array')
+            t = c.t if t is None else (ir.or_(t, c.t) if op == 'or' else ir.and_(t, c.t))
+        return Lane(t, self.n, self.cols[0].mask)
+
     def all(self, axis=None):
+        if axis in (1, -1):
+            return self._rowwise('and')           # one boolean per row
         r = None
         for c in self.cols:
             x = c.all()
@@ -681,6 +699,8 @@ class Arr2(object):
         return r
 
     def any(self, axis=None):
+        if axis in (1, -1):
+            return self._rowwise('or')
         r = None
         for c in self.cols:
             x = c.any()
